@@ -545,7 +545,7 @@ Qed.
 
 Theorem validate_incomplete hd p f : incomplete p -> validate hd p <> Ok f.
 Proof.
-  intros Hinc H. unfold validate in H.
+  intros Hinc H. unfold validate in H; rewrite ?frev_eq in H.
   destruct (compute_parents (rev (pi_layers_rev p))) as [ps|e|s]; cbn [rbind] in H; try discriminate.
   destruct (validate_tilesets (pi_palette p) (h_fmt hd) (pi_tilesets p)) as [tss|e|s] eqn:VT;
     cbn [rbind] in H; try discriminate.
